@@ -95,7 +95,11 @@ class Solver(pl.LightningModule):
             condition._move_static_data(self.device)
         for condition in self.val_conditions:
             condition._move_static_data(self.device)
-        self.n_training_step = 0
+        # the iteration index handed to the conditions continues at the trainer's
+        # global step: 0 for a fresh fit, k after resuming a step-k checkpoint
+        # (trainer.fit(..., ckpt_path=...)), so that a resumed run evaluates the
+        # conditions with the same indices as an uninterrupted one.
+        self.n_training_step = self.trainer.global_step
 
     def training_step(self, batch, batch_idx):
         loss = torch.zeros(1, requires_grad=True, device=self.device)
